@@ -342,6 +342,12 @@ def closure_family():
     s1, s2 = cl.assess(C.kw(x=0.3), (2.0,))[0], m.assess(C.kw(x=0.3), (1.0, 2.0))[0]
     if not close(s1, s2):
         fail("closure.assess differs")
+    (gt, gw), (rt, rw0) = cl.generate(KEY, C.kw(x=0.3), (2.0,)), m.generate(KEY, C.kw(x=0.3), (1.0, 2.0))
+    if not (close(gw, rw0) and close(gw, s2) and gt.get_args() == rt.get_args()):
+        fail("closure.generate: weight is not the density of the constrained choice at stored + call-time args", w=gw, want=rw0)
+    gt2, gw2 = cl.importance(KEY, C.kw(x=0.3), (2.0,))
+    if not close(gw2, s2):
+        fail("closure.importance: weight differs from assess on a full constraint", w=gw2, want=s2)
     new, w, rd, bwd = cl.edit(KEY, tr, Update(C.kw(x=0.5)), Diff.no_change((3.0,)))
     rnew, rw, _, _ = m.edit(KEY, ref, Update(C.kw(x=0.5)), Diff.unknown_change((1.0, 3.0)))
     if not (close(w, rw) and new.get_args() == (1.0, 3.0)):
